@@ -20,7 +20,7 @@ import pipegen
 import terms
 
 PID = "C11"
-PROPS = ["PfModel.Props.C11", "PfModel.Props.C11Ext", "PfModel.Props.C11Comp", "PfModel.Props.C11Val", "PfModel.Props.C11Auto", "PfModel.Props.C11Scope"]
+PROPS = ["PfModel.Props.C11", "PfModel.Props.C11Ext", "PfModel.Props.C11Comp", "PfModel.Props.C11Val", "PfModel.Props.C11Auto", "PfModel.Props.C11Scope", "PfModel.Props.C11Conf", "PfModel.Props.C11ConfMap"]
 DRIVER = "C11"
 RULE = ("call DAGs of 1-6 term-building functions (pipegen; nullary p=0.2, functions whose parameters are all defaulted/bound, tuple "
         "outputs, renames, bound values) and well-formed map pipelines of 1-4 functions (mapgen); for every pipeline every non-empty "
